@@ -436,6 +436,9 @@ impl Prop for C19 {
   }
   fn run(&self, env: &Env, _t: &str, shard: usize, nshards: usize, out: &mut Out) {
     let ev = |e: &Env, o: &mut Out, s: &str, cs: &Case| self.eval(e, o, s, cs);
+    // route equivalence of the day objects this property reads (see routes.rs)
+    prop_run(env, out, "routes", env.tier.pick(1600, 64000) / nshards as u32, 8800 + shard as u64, crate::routes::date_strategy(), &ev);
+    out.set_exhaustive("routes", false);
     if shard == 0 {
       let mut rev = Reverse::new(1);
       let mut both = |o: &mut Out, sub: &str, a: &[i64]| {
@@ -493,6 +496,7 @@ impl Prop for C19 {
       "misc" => self.eval_misc(env, out, case),
       "sign" => self.eval_sign(env, out, case),
       "derived" => self.eval_derived(env, out, case),
+      "routes" => crate::routes::compare_day_routes(env, out, "routes", case, (case.a[0].clamp(0, crate::model::NDAYS as i64 - 1)) as usize, &crate::routes::fields_c19),
       _ => panic!("unknown sub-check {}", sub),
     }
   }
